@@ -3,6 +3,8 @@ package props
 // C01 — durable checkpoint never ahead of what the consumer settled (DESIGN §5 C01).
 
 import (
+	"encoding/json"
+	"strings"
 	"testing"
 
 	"pgregory.net/rapid"
@@ -52,4 +54,48 @@ func TestC01_KnownFindings(t *testing.T) {
 
 func init() {
 	registerReplay("c01hist", histReplayer(func() bool { return false }, "C01"))
+}
+
+// ---- restart answered with a ROLLBACK (Layer B: real client.OpenStream + observer on the simulated node) ----
+// The durable checkpoint names F. At the restart the server refuses the request and has the client roll back to R < F;
+// what it streams then is whatever survives on its side (a document written again later is sent once, at its later
+// seqno - so F itself need not appear). C01's clause: everything above F - in particular the first event that was
+// delivered and not acknowledged before the crash - reaches the consumer again; nothing above F is skipped.
+func TestC01_RollbackRestart(t *testing.T) {
+	rapid.Check(t, func(rt *rapid.T) {
+		sc := c08Gen(rt)
+		sc.Second = "ok"
+		journal("C01", "c01rollback", sc)
+		d, labels := c08Exec(sc)
+		journalDone()
+		if strings.Contains(d, "was not delivered after the rollback") || strings.Contains(d, "skipped / reordered") {
+			violation(rt, "C01", "c01rollback", sc, "restart after a server-requested rollback: %s (the checkpoint said F=%d: an event above it that the consumer never acknowledged is lost)", d, sc.F)
+		}
+		absent := true
+		above := false
+		for _, e := range sc.Events {
+			absent = absent && e.Seq != sc.F
+			above = above || e.Seq > sc.F
+		}
+		labs := []string{"rollback_restart_cases"}
+		if absent && above {
+			labs = append(labs, "rollback_restart_checkpointed_event_not_resent")
+		}
+		_ = labels
+		record("C01", sc, absent && above, labs...)
+	})
+}
+
+func init() {
+	registerReplay("c01rollback", func(raw json.RawMessage) string {
+		var sc c08Scenario
+		if err := json.Unmarshal(raw, &sc); err != nil {
+			return err.Error()
+		}
+		d, _ := c08Exec(sc)
+		if strings.Contains(d, "was not delivered after the rollback") || strings.Contains(d, "skipped / reordered") {
+			return d
+		}
+		return ""
+	})
 }
